@@ -1,8 +1,9 @@
 """C03 — Variables and run counters end up with the values the csvpath assigns."""
 import interp_common
 
-MODULES = ["Props.C03"]
-THEOREMS = ["Props.C03.c03_scan_count", "Props.C03.c03_match_count", "Props.C03.c03_ctx_counts", "Props.C03.c03_sameline", "Props.C03.c03_when_order"]
+MODULES = ["Props.C03", "Props.RunTie"]
+THEOREMS = ["Props.C03.c03_scan_count", "Props.C03.c03_match_count", "Props.C03.c03_ctx_counts", "Props.C03.c03_sameline", "Props.C03.c03_when_order",
+            "Props.RunTie.consider_line_source_is_model", "Props.RunTie.advance_source"]
 
 
 def run(check, tier):
